@@ -110,7 +110,7 @@ class AssignDynamic(AssignContract):
     target = SQ + "assign_obstacles_to_lanelets"
     case = "dynamic obstacle with a 1-state trajectory prediction"
     describe = "for every time step of the horizon: centre / shape sets are the geometric truth, per-time-step registry is the inverse of the shape assignment; removal never fails"
-    budget_s = 400
+    budget_s = 1200
 
     def build(self, F):
         import os
